@@ -6,8 +6,10 @@
    - [body_result v c buf segs closed]: what `ClientResponse::body()` returns - (Ok body | Err |
      time-out, fate of the connection) - when the codec state after the head is [c], [buf] was read
      beyond the head, the socket then delivers the reads [segs] and finally end-of-stream
-     ([closed = true]) or silence.  [v] selects the tree: [v_orig] = before fixes F9/F17,
-     [v_fixed] = with fixes/F9.patch and fixes/F17.patch.
+     ([closed = true]) or silence.  [v] selects the code: [v_orig] = THE TREE AS IT IS (findings
+     F9 and F17 are known findings: the repository's own tests test_server::not_modified_spec_h1 and
+     ::content_length pin the behaviour); [v_fixed] = the tree with fixes/F9.proposed.patch and
+     fixes/F17.proposed.patch, NOT applied - theorems about it are named `..._with_proposed_...`.
    - [pbw k s []]: the payload decoder [k] (PayloadDecoder::length(n) | chunked() | eof(), model
      shared with C01) run over the whole byte string [s]: Ok (_, rest, body, finished).
    - [fresh k]: [k] is one of the three decoders a response head installs. *)
@@ -24,10 +26,34 @@ Theorem C17_segmentation : forall (v : variant) (c : ccodec) (k : kind) (buf : b
   body_result v c buf segs1 closed = body_result v c buf segs2 closed.
 Proof. exact segmentation. Qed.
 
-(* 2. Complete or error (repaired code): a Content-Length or chunked body delivered as Ok is the
-      body of a stream on which the decoder reached its end.  In particular a connection that ends
-      (or goes silent) before the framed end gives Err / time-out, never a short success. *)
-Theorem C17_complete_or_error : forall (c : ccodec) (k : kind) (buf : bytes) (segs : list bytes)
+(* 2. Complete or error.  FALSE of the tree as it is (finding F9, class
+      [Known_F9]: the connection ends while a Content-Length / chunked decoder is unfinished);
+      refuted below, and proved outside the class: *)
+Definition Known_F9 (k : kind) (stream : bytes) (closed : bool) : Prop :=
+  closed = true /\ k <> KEof /\ exists k' r b, pbw k stream [] = Ok (k', r, b, false).
+
+Theorem C17_holds_outside_known_F9 : forall (c : ccodec) (k : kind) (buf : bytes) (segs : list bytes)
+    (closed : bool) (body : bytes) (ft : fate),
+  cc_payload c = Some k -> fresh k -> k <> KEof -> nonempty segs ->
+  ~ Known_F9 k (buf ++ concat segs) closed ->
+  body_result v_orig c buf segs closed = (BOk body, ft) ->
+  exists k' rest, pbw k (buf ++ concat segs) [] = Ok (k', rest, body, true).
+Proof.
+  intros c k buf segs closed body ft Hc Hk Hne Hs Hnk H.
+  destruct (orig_complete_or_known c k buf segs closed body ft Hc Hk Hs H) as [Hd|[-> (k' & r & E)]].
+  - exact Hd.
+  - exfalso. apply Hnk. split; [reflexivity|]. split; [exact Hne|]. do 3 eexists; exact E.
+Qed.
+
+(* in particular, as long as the connection does not end the tree as it is never delivers a cut body *)
+Theorem C17_complete_or_error_open_connection : forall (c : ccodec) (k : kind) (buf : bytes) (segs : list bytes) body ft,
+  cc_payload c = Some k -> fresh k -> nonempty segs ->
+  body_result v_orig c buf segs false = (BOk body, ft) ->
+  exists k' rest, pbw k (buf ++ concat segs) [] = Ok (k', rest, body, true).
+Proof. exact orig_outside_f9. Qed.
+
+(* WOULD HOLD with fixes/F9.proposed.patch (not applied): no exception for the end of the connection *)
+Theorem C17_complete_or_error_with_proposed_F9 : forall (c : ccodec) (k : kind) (buf : bytes) (segs : list bytes)
     (closed : bool) (body : bytes) (ft : fate),
   cc_payload c = Some k -> fresh k -> k <> KEof -> nonempty segs ->
   body_result v_fixed c buf segs closed = (BOk body, ft) ->
@@ -39,7 +65,7 @@ Theorem C17_length_exact : forall (n : N) (s : bytes) k' rest body,
   pbw (KLength n) s [] = Ok (k', rest, body, true) -> s = body ++ rest /\ lenN body = n.
 Proof. exact length_complete. Qed.
 
-(* 3. Finding F9 on the unrepaired code.  Refutation: a concrete short success ... *)
+(* 3. Finding F9 (known; the tree as it is).  Refutation: a concrete short success ... *)
 Theorem C17_refuted_F9 :
   exists (c : ccodec) (segs : list bytes),
     cc_payload c = Some (KLength 10) /\
@@ -57,13 +83,6 @@ Theorem C17_F9_every_cut : forall (c : ccodec) (k : kind) (buf : bytes) (segs : 
   pbw k (buf ++ concat segs) [] = Ok (k', r, body, false) ->
   body_result v_orig c buf segs true = (BOk body, FClosed).
 Proof. exact f9_every_cut. Qed.
-
-(* ... and outside that class (the connection does not end) the unrepaired code is right too *)
-Theorem C17_holds_outside_known_F9 : forall (c : ccodec) (k : kind) (buf : bytes) (segs : list bytes) body ft,
-  cc_payload c = Some k -> fresh k -> nonempty segs ->
-  body_result v_orig c buf segs false = (BOk body, ft) ->
-  exists k' rest, pbw k (buf ++ concat segs) [] = Ok (k', rest, body, true).
-Proof. exact orig_outside_f9. Qed.
 
 (* 4. Read-to-close bodies (HTTP/1.0 without length, 101) end where the connection ends: every
       byte is delivered and the connection is not reused. *)
@@ -110,50 +129,65 @@ Theorem C17_refuted_F11 :
     c_limit c = 1 /\ lenN (open_conns (run_pool (pool0 c) ops)) = 2.
 Proof. exists (mk_cfg 1 15000 75000), f11_witness. split; [reflexivity|exact f11_refutes]. Qed.
 
-(* 8. No leftovers.  Finding F17 on the unrepaired code: the peer answers request 1 with `103`
-      and (after a further request arrived) `200 FIRST`; the client returns 103 as the final
-      response of request 1 and FIRST as the response of request 2. *)
+(* 8. No leftovers: the response returned for a request is the peer's final response to it.
+      FALSE of the tree as it is (finding F17, class: the peer sends a 1xx head other than 101).
+      Refutation: the peer answers request 1 with `103` and (after a further request arrived)
+      `200 FIRST`; the client returns 103 as the final response of request 1 and FIRST as the
+      response of request 2. *)
 Theorem C17_refuted_F17 :
   conn_run simple_rhead H1_MAX_BUFFER_SIZE v_orig [(false, true); (false, true)] f17_script =
   [OResp 103 (Some (BOk [])); OResp 200 (Some (BOk body_first))].
 Proof. exact f17_refutes. Qed.
 
-(* Repaired code: whatever the peer sends and however it is cut, the head `send_request` returns
-   is never an interim (1xx other than 101) response without payload - the client keeps reading
-   until the final response (or fails). *)
-Theorem C17_no_interim_as_final : forall (hp : bytes -> rhead_res) (maxb : N) (fuel : nat)
+(* Outside the class: if no head the client tokenizes from the peer's bytes is a 1xx other than
+   101 ([no_interim_heads hp]), the head `send_request` returns is not an interim one - for every
+   stream, segmentation and variant, in particular the tree as it is. *)
+Theorem C17_holds_outside_known_F17 : forall (hp : bytes -> rhead_res) (maxb : N) (fuel : nat)
+    (c : ccodec) (f : framed) (segs : list bytes) (closed : bool) h c' f' segs',
+  no_interim_heads hp ->
+  read_head hp maxb v_orig fuel c f segs closed = HHead h c' f' segs' ->
+  is_interim h = false.
+Proof. intros hp maxb fuel c f segs closed h c' f' segs'. apply no_interim_outside_known. Qed.
+
+(* WOULD HOLD with fixes/F17.proposed.patch (not applied): whatever the peer sends, the head
+   returned is never an interim response without payload ... *)
+Theorem C17_no_interim_as_final_with_proposed_F17 : forall (hp : bytes -> rhead_res) (maxb : N) (fuel : nat)
     (c : ccodec) (f : framed) (segs : list bytes) (closed : bool) h c' f' segs',
   read_head hp maxb v_fixed fuel c f segs closed = HHead h c' f' segs' ->
   is_interim h = true -> message_type c' <> MTNone.
 Proof. intros hp maxb fuel c f segs closed h c' f' segs'. apply no_interim_as_final. reflexivity. Qed.
 
-(* the witness of F17 on the repaired code: request 1 waits for its final response (time-out), the
-   connection is dropped, nothing of exchange 1 reaches request 2; and with interim + final in one
-   segment each request gets its own response *)
-Theorem C17_no_leftovers_partial :
+(* ... and the witnesses of F17 behave: request 1 waits for its final response (time-out, the
+   connection is dropped, nothing of exchange 1 reaches request 2); interim + final in one segment:
+   each request gets its own response *)
+Theorem C17_no_leftovers_partial_with_proposed_F17 :
   conn_run simple_rhead H1_MAX_BUFFER_SIZE v_fixed [(false, true); (false, true)] f17_script = [OSendErr STimeout] /\
   conn_run simple_rhead H1_MAX_BUFFER_SIZE v_fixed [(false, true); (false, true)]
     [EW; ED (hex103 ++ resp_first); EW; ED resp_second] =
   [OResp 200 (Some (BOk body_first)); OResp 200 (Some (BOk body_second))].
 Proof. split; [exact f17_fixed_witness|exact f17_fixed_same_segment]. Qed.
-(* FULL STATEMENT (not proved; kept for the record):
-     forall scripts (well-formed: the bytes of script j are exactly interim heads, one final head and
-     its framed body) and every segmentation / gating of them, the k-th outcome of
-     [conn_run simple_rhead max v_fixed reqs (concat scripts)] is either an error or the
-     (status, body) of script k.
+(* FULL STATEMENT of no-leftovers (not proved for either variant; kept for the record):
+     for scripts whose bytes are exactly [interim heads (none, for the tree as it is)], one final
+     head and its framed body, and every segmentation / gating of them, the k-th outcome of
+     [conn_run simple_rhead max v reqs (concat scripts)] is either an error or the (status, body)
+     of script k.
    Missing: the head-level counterpart of BodyProofs.read_body_run ([read_head] as a function of
-   the concatenated stream, under the prefix-stability laws of the tokenizer), and monotonicity of
-   the whole-stream semantics under extension.  The correspondence check exercises this statement
-   on every generated sequence (oracle: "response k is the server's k-th final response"). *)
+   the concatenated stream, under prefix-stability laws of the tokenizer), and monotonicity of the
+   whole-stream semantics under extension.  The correspondence check exercises this statement on
+   every generated sequence (oracle: "response k is the server's k-th final response"). *)
 
 (* non-vacuity: a chunked body cut into three reads, keep-alive: delivered whole and released *)
 Example C17_example :
   let c := mk_ccodec (Some kchunked0) CKeepAlive false false in
   (* "5\r\nhel" | "lo\r\n0\r" | "\n\r\n" *)
-  body_result v_fixed c [] [[53;13;10;104;101;108]; [108;111;13;10;48;13]; [10;13;10]] false
+  body_result v_orig c [] [[53;13;10;104;101;108]; [108;111;13;10;48;13]; [10;13;10]] false
     = (BOk [104;101;108;108;111], FReleased)
   /\ fresh kchunked0 /\ nonempty [[53;13;10;104;101;108]; [108;111;13;10;48;13]; [10;13;10]].
 Proof.
   split; [vm_compute; reflexivity|]. split; [right; left; reflexivity|].
   repeat constructor; discriminate.
 Qed.
+
+(* non-vacuity of [no_interim_heads]: a tokenizer that only ever yields `200` heads *)
+Example C17_example_no_interim : no_interim_heads (fun _ => RComplete 17 V11 200 []).
+Proof. intros b len ver st hs H. inversion H; subst. reflexivity. Qed.
